@@ -66,6 +66,8 @@ pub struct FixedScen {
     height: u64,
     time: u64,
     seed: u64,
+    /// `maxp` of the accepted instantiation (from the op line)
+    maxp: String,
 }
 
 fn new_app(funder: &Addr) -> App {
@@ -145,6 +147,7 @@ impl FixedScen {
             height: 12345,
             time: 1571797419879305533,
             seed: 0,
+            maxp: String::new(),
         }
     }
 
@@ -547,12 +550,12 @@ impl FixedScen {
                 format!("quorum:{th}:{q}")
             }
         };
-        let maxp = match rng.below(40) {
-            0 => format!("h{}", u64::MAX - self.height + rng.below(2)),
-            1 => format!("t{}", (u64::MAX - self.time) / 1_000_000_000 + rng.below(2)),
+        let maxp = match rng.below(120) {
+            0 => format!("h{}", u64::MAX - self.height - 3 + rng.below(5)),
+            1 => format!("t{}", (u64::MAX - self.time) / 1_000_000_000 - 30 + rng.below(32)),
             2 => format!("t{}", u64::MAX / 1_000_000_000 + 1),
-            3 => "h0".to_string(),
-            x if x < 22 => format!("h{}", 1 + rng.below(8)),
+            3 | 4 => "h0".to_string(),
+            x if x < 66 => format!("h{}", 1 + rng.below(8)),
             _ => format!("t{}", 3 + rng.below(60)),
         };
         let f1 = if rng.chance(1, 6) { 0 } else { rng.below(120) };
@@ -563,7 +566,21 @@ impl FixedScen {
     fn gen_latest(&self, rng: &mut Rng) -> String {
         let h = self.height;
         let t = self.time;
-        match rng.below(30) {
+        let mut k = rng.below(30);
+        // mostly the same kind as max_voting_period (a height and a time are incomparable)
+        if rng.chance(6, 7) {
+            let height_kind = self.maxp.starts_with('h');
+            for _ in 0..20 {
+                let is_h = matches!(k, 15..=21 | 29);
+                let is_t = matches!(k, 22..=28);
+                if (height_kind && is_t) || (!height_kind && is_h) {
+                    k = rng.below(30);
+                } else {
+                    break;
+                }
+            }
+        }
+        match k {
             0..=13 => "-".to_string(),
             14 => "never".to_string(),
             15 => format!("h{}", h.saturating_sub(1)),
@@ -661,12 +678,12 @@ impl Scenario for FixedScen {
         let voters = self.all_voters();
         let next_id = props.len() as u64 + 1;
         let r = rng.below(100);
-        if r < 14 {
+        if r < 12 {
             let dh = *rng.pick(&[0u64, 1, 1, 1, 2, 3, 5]);
             let dt = *rng.pick(&[0u64, 1, 1_000_000_000, 5_000_000_000, 5_000_000_000, 20_000_000_000, 70_000_000_000]);
             return format!("env height={} time={}", self.height + dh, self.time + dt);
         }
-        if r < 22 {
+        if r < 19 {
             let lim = match rng.below(8) {
                 0 => "-".to_string(),
                 1 => "0".to_string(),
@@ -704,10 +721,10 @@ impl Scenario for FixedScen {
                 _ => format!("query voter address={}", anyaddr(rng)),
             };
         }
-        if r < 25 {
+        if r < 21 {
             return format!("fund amt={} denom={}", *rng.pick(&[0u64, 1, 5, 20, 100]), if rng.chance(3, 4) { DENOMS[0] } else { DENOMS[1] });
         }
-        if r < 28 {
+        if r < 24 {
             return format!("sink ok={}", rng.below(2));
         }
         let member = |rng: &mut Rng| -> Addr {
@@ -718,11 +735,22 @@ impl Scenario for FixedScen {
             }
         };
         let anyone = |rng: &mut Rng| -> Addr { rng.pick(&self.pool).clone() };
-        let pick_prop = |rng: &mut Rng, want: &[Status]| -> u64 {
-            let c: Vec<u64> = props.iter().filter(|p| want.contains(&p.status)).map(|p| p.id).collect();
-            if !c.is_empty() && rng.chance(4, 5) {
-                *rng.pick(&c)
-            } else if rng.chance(1, 12) {
+        let height = self.height;
+        let time = self.time;
+        let expired = |p: &ProposalResponse| -> bool {
+            match p.expires {
+                Expiration::AtHeight(h) => height >= h,
+                Expiration::AtTime(t) => time >= t.nanos(),
+                Expiration::Never {} => false,
+            }
+        };
+        let live: Vec<u64> = props.iter().filter(|p| p.status != Status::Executed && !expired(p)).map(|p| p.id).collect();
+        let passed: Vec<u64> = props.iter().filter(|p| p.status == Status::Passed).map(|p| p.id).collect();
+        let closable: Vec<u64> = props.iter().filter(|p| p.status == Status::Rejected && expired(p)).map(|p| p.id).collect();
+        let pick_from = |rng: &mut Rng, c: &Vec<u64>| -> u64 {
+            if !c.is_empty() && rng.chance(6, 7) {
+                *rng.pick(c)
+            } else if rng.chance(1, 8) {
                 next_id + rng.below(2)
             } else if props.is_empty() {
                 1
@@ -730,8 +758,17 @@ impl Scenario for FixedScen {
                 rng.pick(&props).id
             }
         };
-        if r < 48 || props.is_empty() {
-            let snd = if rng.chance(9, 10) { member(rng) } else { anyone(rng) };
+        // what to do: propose when little is going on, execute/close when something is ready
+        let mut r = rng.below(100);
+        if live.len() < 2 && rng.chance(1, 2) {
+            r = 0;
+        } else if !passed.is_empty() && rng.chance(1, 4) {
+            r = 70;
+        } else if !closable.is_empty() && rng.chance(1, 8) {
+            r = 90;
+        }
+        if r < 22 || props.is_empty() {
+            let snd = if rng.chance(11, 12) { member(rng) } else { anyone(rng) };
             let msgs = self.gen_msgs(rng, next_id);
             return format!(
                 "exec {} propose title=t{} desc=d{} msgs={} latest={}",
@@ -742,15 +779,15 @@ impl Scenario for FixedScen {
                 self.gen_latest(rng)
             );
         }
-        if r < 78 {
-            let id = pick_prop(rng, &[Status::Open, Status::Open, Status::Passed, Status::Rejected]);
+        if r < 68 {
+            let id = pick_from(rng, &live);
             // prefer members that have not voted yet
             let voted: Vec<String> = self
                 .q::<VoteListResponse>(&QueryMsg::ListVotes { proposal_id: id, start_after: None, limit: Some(30) })
                 .map(|r| r.votes.into_iter().map(|v| v.voter).collect())
                 .unwrap_or_default();
             let fresh: Vec<&(String, u64)> = voters.iter().filter(|v| !voted.contains(&v.0)).collect();
-            let snd = if !fresh.is_empty() && rng.chance(4, 5) {
+            let snd = if !fresh.is_empty() && rng.chance(5, 6) {
                 Addr::unchecked(rng.pick(&fresh).0.clone())
             } else if rng.chance(1, 2) {
                 member(rng)
@@ -765,11 +802,11 @@ impl Scenario for FixedScen {
             };
             return format!("exec {snd} vote id={id} vote={v}");
         }
-        if r < 90 {
-            let id = pick_prop(rng, &[Status::Passed]);
+        if r < 88 {
+            let id = pick_from(rng, &passed);
             return format!("exec {} execute id={}", anyone(rng), id);
         }
-        let id = pick_prop(rng, &[Status::Rejected, Status::Open]);
+        let id = pick_from(rng, &closable);
         format!("exec {} close id={}", anyone(rng), id)
     }
 
@@ -816,6 +853,7 @@ impl Scenario for FixedScen {
                     Some(Ok(addr)) => {
                         let same = addr == self.me;
                         self.contract = Some(addr);
+                        self.maxp = a.str("maxp");
                         vec![format!("> ok self={}", if same { "same" } else { "different" }), self.observe(op)]
                     }
                     _ => {
